@@ -220,6 +220,10 @@ class AdapterCutter(SingleEndModifier):
         """
         matches = []
         if self.action == "lowercase":  # TODO this should not be needed
+            # Work on a copy: the caller's record (which is also
+            # info.original_read and, for paired --revcomp, the other mate
+            # during the swapped trial) must stay as it is
+            read = read[:]
             read.sequence = read.sequence.upper()
         trimmed_read = read
         for _ in range(self.times):
